@@ -448,6 +448,26 @@ def run_history_strict_case(ep, as_ref):
     d21 = dict(DOCS[1][0])
     if as_ref:
         d20["created_by_ref"] = d21["created_by_ref"] = "identity--" + V1_ID
+        # a reference whose type prefix is a 2.1 observable type is still a 2.0 identifier inside 2.0 content (UUIDv4 only)
+        d20["object_marking_refs"] = d21["object_marking_refs"] = ["marking-definition--" + V1_ID]
+        for rel_end in ("ipv4-addr", "file", "identity"):
+            for uid in (V1_ID, str(__import__("uuid").uuid5(__import__("uuid").NAMESPACE_DNS, "x"))):
+                r20 = {"type": "relationship", "id": "relationship--" + UU, "created": "2020-01-01T00:00:00.000Z", "modified": "2020-01-01T00:00:00.000Z",
+                       "relationship_type": "uses", "source_ref": "malware--" + UU, "target_ref": "%s--%s" % (rel_end, uid)}
+                rep20 = {"type": "report", "id": "report--" + UU, "created": "2020-01-01T00:00:00.000Z", "modified": "2020-01-01T00:00:00.000Z", "name": "r",
+                         "published": "2020-01-01T00:00:00Z", "labels": ["threat-report"], "object_refs": ["malware--" + UU, "%s--%s" % (rel_end, uid)]}
+                for bad in (r20, rep20):
+                    for kw in ({"version": "2.0"}, {}):
+                        try:
+                            stix2.parse(dict(bad), **kw)
+                            return False
+                        except (STIXError, ValueError, TypeError):
+                            pass
+                    try:
+                        M.MemoryStore(allow_custom=False).add(dict(bad), version="2.0")
+                        return False
+                    except (STIXError, ValueError, TypeError):
+                        pass
     else:
         d20["id"] = d21["id"] = "identity--" + V1_ID
 
